@@ -400,7 +400,7 @@ def run(ctx):
         for e in A.err:
             ctx.missing('R12.1', 'anchor', e)
         return
-    r12_1_4(ctx, A)
-    r12_2(ctx)
-    r12_3_6(ctx, A)
-    r12_5(ctx)
+    ctx.step(r12_1_4, ctx, A)
+    ctx.step(r12_2, ctx)
+    ctx.step(r12_3_6, ctx, A)
+    ctx.step(r12_5, ctx)
